@@ -3,6 +3,7 @@ package vsched
 import (
 	"reflect"
 	"runtime"
+	"sort"
 )
 
 // Case is one communication clause of a rewritten select statement.
@@ -207,4 +208,20 @@ func chanPtrOrZero(ch interface{}) uintptr {
 		return 1
 	}
 	return p
+}
+
+type orderedKey interface {
+	~int | ~int8 | ~int16 | ~int32 | ~int64 | ~uint | ~uint8 | ~uint16 | ~uint32 | ~uint64 | ~uintptr | ~string
+}
+
+// SortedKeys returns the keys of m in ascending order (used by the rewritten `for range` over
+// maps: Go leaves the iteration order unspecified, the checker fixes one legal order so that an
+// execution is a function of its choice list).
+func SortedKeys[K orderedKey, V any](m map[K]V) []K {
+	keys := make([]K, 0, len(m))
+	for k := range m {
+		keys = append(keys, k)
+	}
+	sort.Slice(keys, func(i, j int) bool { return keys[i] < keys[j] })
+	return keys
 }
